@@ -1,6 +1,6 @@
 (* C10 - the statements of the property, derived from the invariants *)
 From Coq Require Import List ZArith Bool Lia.
-From GV Require Import Gen.GenArbiter Model.Reload Proof.ReloadBase Proof.ReloadInv.
+From GV Require Import Gen.GenArbiter Model.Reload Proof.ReloadBase Proof.ReloadInv Proof.ReloadCount.
 Import ListNotations.
 Local Open Scope Z_scope.
 
@@ -76,15 +76,20 @@ Qed.
 
 (* as long as the configured bind address does not change, LISTENERS are the very objects the master started with,
    none of them is ever closed, and every worker of every generation was forked with exactly these objects *)
+Theorem reload_keeps_listeners_resized : forall n cw a ls, addr_ok a ls = true ->
+  let s := run (init_resized n cw a) ls in
+  lsn s = [0] /\ closed s = [] /\ (forall w, In w (workers s) -> w_lsn w = [0]).
+Proof.
+  intros n cw a ls A s.
+  assert (L0 : LInv a [0] [] (init_resized n cw a)).
+  { unfold LInv, init_resized. simpl. repeat split; auto. intros w Hw. destruct (boot_workers_spec _ _ _ Hw) as [k [_ E]]. subst w. reflexivity. }
+  destruct (run_linv a [0] [] ls _ A L0) as [_ [_ [L3 [L4 L5]]]]. auto.
+Qed.
+
 Theorem reload_keeps_listeners : forall n a ls, addr_ok a ls = true ->
   let s := run (init n a) ls in
   lsn s = [0] /\ closed s = [] /\ (forall w, In w (workers s) -> w_lsn w = [0]).
-Proof.
-  intros n a ls A s.
-  assert (L0 : LInv a [0] [] (init n a)).
-  { unfold LInv, init. simpl. repeat split; auto. intros w Hw. destruct (boot_workers_spec _ _ _ Hw) as [k [_ E]]. subst w. reflexivity. }
-  destruct (run_linv a [0] [] ls _ A L0) as [_ [_ [L3 [L4 L5]]]]. auto.
-Qed.
+Proof. intros n a ls. rewrite init_is_resized. apply reload_keeps_listeners_resized. Qed.
 
 (* ---- the pool ---------------------------------------------------------------------------------------------------------- *)
 Lemma unretired_is_new : forall s, GInv s -> (cur s = PSigq \/ cur s = PSelect) ->
@@ -102,15 +107,16 @@ Qed.
 
 (* whenever the master is back at the top of its loop: every worker that has not been retired (told to stop, dead, or
    gone) was forked after the last reload began, with the configuration and the listeners of that reload, and there are
-   exactly cfg.workers of them *)
-Theorem reload_replaces_pool : forall n a ls, told_only ls = true ->
-  let s := run (init n a) ls in
+   exactly num_workers of them - which, once a reload has happened, is cfg.workers, WHATEVER TTIN / TTOU had made of the
+   pool before (init_resized n k: n workers running, k configured) *)
+Theorem reload_replaces_pool_resized : forall n k a ls, 0 <= k -> told_only ls = true ->
+  let s := run (init_resized n k a) ls in
   cur s = PSigq \/ cur s = PSelect ->
   (forall w, In w (workers s) -> retired s w = false -> hup_age s < w_age w /\ w_cfg w = cfgid s /\ w_lsn w = lsn s) /\
-  Z.of_nat (length (filter (fun w => negb (retired s w)) (workers s))) = num s /\ num s = cfgw s.
+  Z.of_nat (length (filter (fun w => negb (retired s w)) (workers s))) = num s /\ (0 < cfgid s -> num s = cfgw s).
 Proof.
-  intros n a ls T s C.
-  assert (G : GInv s) by (apply run_ginv; auto; apply init_ginv).
+  intros n k a ls Hk T s C.
+  assert (G : GInv s) by (apply run_ginv; auto; apply init_resized_ginv; auto).
   pose proof G as [So A H K KB WB NF NC CF PC WP].
   split; [|split].
   - intros w Hw R. apply (unretired_is_new s G C w Hw) in R.
@@ -121,10 +127,35 @@ Proof.
       - specialize (U2 eq_refl). discriminate.
       - specialize (U1 eq_refl). discriminate. }
     rewrite E. unfold pc_inv in PC. fold (cnew s). destruct C as [C|C]; rewrite C in PC; tauto.
-  - tauto.
+  - apply count_after_reload.
+Qed.
+
+Theorem reload_replaces_pool : forall n a ls, told_only ls = true ->
+  let s := run (init n a) ls in
+  cur s = PSigq \/ cur s = PSelect ->
+  (forall w, In w (workers s) -> retired s w = false -> hup_age s < w_age w /\ w_cfg w = cfgid s /\ w_lsn w = lsn s) /\
+  Z.of_nat (length (filter (fun w => negb (retired s w)) (workers s))) = num s /\ num s = cfgw s.
+Proof.
+  intros n a ls T s C. pose proof (count_unresized n a ls) as CU. fold s in CU.
+  assert (R : let s' := run (init_resized n (Z.of_nat n) a) ls in
+              cur s' = PSigq \/ cur s' = PSelect -> _) by (apply (reload_replaces_pool_resized n (Z.of_nat n) a ls); [lia|exact T]).
+  rewrite <- init_is_resized in R. fold s in R. destruct (R C) as [R1 [R2 _]]. auto.
 Qed.
 
 (* "after convergence": once the retired workers have left WORKERS, the pool IS the new generation *)
+Corollary converged_pool_resized : forall n k a ls, 0 <= k -> told_only ls = true ->
+  let s := run (init_resized n k a) ls in
+  cur s = PSigq \/ cur s = PSelect -> 0 < cfgid s ->
+  (forall w, In w (workers s) -> retired s w = false) ->
+  wlen s = cfgw s /\ (forall w, In w (workers s) -> hup_age s < w_age w /\ w_cfg w = cfgid s /\ w_lsn w = lsn s).
+Proof.
+  intros n k a ls Hk T s C Rl Conv. destruct (reload_replaces_pool_resized n k a ls Hk T C) as [R1 [R2 R3]]. fold s in R1, R2, R3.
+  split.
+  - rewrite <- (R3 Rl), <- R2. unfold wlen. f_equal. f_equal. symmetry. apply filter_all_true'.
+    intros w Hw. rewrite (Conv w Hw). reflexivity.
+  - intros w Hw. apply R1; auto.
+Qed.
+
 Corollary converged_pool : forall n a ls, told_only ls = true ->
   let s := run (init n a) ls in
   cur s = PSigq \/ cur s = PSelect ->
